@@ -14,13 +14,13 @@ CHECKS = {
             "Not decided: values written for movable cells; user callbacks.",
             "DESIGN.md 2/C03"),
     "C10": ("dominance / must-pass-through analysis of the busy-flag protocol, exception-exit coverage (RAII or catch-all), who-may-write",
-            "Protocol decided structurally: every structural setter is dominated by the busy check; the busy flag is set while a placer runs and "
+            "Protocol decided structurally: every structural setter is dominated by the busy check on every write and every normal return; the busy flag is set while a placer runs and "
             "cleared on every normal and exceptional exit; parameter validation precedes all work; a failed legalization exports nothing.",
             "Trusted: clang 14 front end; every call is treated as may-throw unless declared noexcept. Not decided: user callback behaviour.",
             "DESIGN.md 2/C10"),
     "C19": ("interval evaluation under dominating guards (bounded subscripts, assert-precondition discharge), dominance of length/index validation over member writes, finite-domain constant folding of the parameter constructors and checks (efforts 1..9)",
             "Input validation decided structurally for all argument values: array subscripts and asserting helpers are reached only under throwing "
-            "range guards; every vector length and pin index is validated by throw before any member is written; a PlacementSolution is read only after its size was checked; no validation reads an already overwritten member; params.check() comes first; the parameters constructed for each effort 1..9 reach no throw of their own check (binary32/binary64 kept apart).",
+            "range guards; every vector length and pin index is validated by throw before any member is written; a PlacementSolution is read only after its size was checked; no validation reads an already overwritten member; params.check() comes first and bounds each overlap by the window size of its own family; the parameters constructed for each effort 1..9 reach no throw of their own check (binary32/binary64 kept apart).",
             "Trusted: clang 14 front end; interval evaluator in cqverif/intervals.py; constant folder in cqverif/consteval.py (libm semantics of round/exp/log as in Python's math). Not decided: exception type/message; row geometry validation.",
             "DESIGN.md 2/C19"),
     "C08": ("zero-instance rules with positive controls (static storage, const_cast, mutable members judged by the cache discipline, entropy sources, clock taint), async-launch discipline, unordered-iteration and read-back reachability analysis",
@@ -31,47 +31,47 @@ CHECKS = {
             "DESIGN.md 2/C08"),
     "C17": ("qualifier typing: floating-point weight path + homogeneity-degree type system over the matrix builders (members and reassigned parameters included), scale-free comparisons and solver settings, guard dominance for the regulariser, argument provenance",
             "The scaling clause is decided by typing for every net list: every matrix coefficient and right-hand-side increment is homogeneous of degree 1 in (weights, penalties), "
-            "no comparison mixes degrees and no solver setting depends on the weight scale, the only degree-0 term is confined to rows no weighted term mentions, weights are stored and forwarded as floats without truncation or defaulting.",
+            "no comparison mixes degrees and no solver setting depends on the weight scale, the only degree-0 term is confined to rows no weighted term mentions, weights are stored and forwarded as floats without truncation or defaulting; no penalty spring is dropped by a position test and no per-net weight uses the model-wide pin count.",
             "Trusted: clang 14 front end; degree seeds (netWeight()/penaltyStrength/weight parameters). Not decided: least-squares optimality (solver numerics).",
             "DESIGN.md 2/C17"),
     "C09": ("exhaustive table extraction (symbolic constant propagation over the orientation dispatch), structural loop-coverage / must-pass-through analysis, who-may-write",
             "The 'for every cell orientation' clause is decided exhaustively: the 8x5 orientation table computed from the AST equals the DEF transform table with symbolic sizes and offsets. "
-            "hpwl covers every pin on its own axis; the incremental model recomputes every net of a moved cell and keeps bounds and value in step; per-net accumulators are reset per net, nets are dropped only for having fewer than two pins, and the builders read placed geometry.",
+            "hpwl covers every pin on its own axis; the incremental model recomputes every net of a moved cell and keeps bounds and value in step; per-net accumulators are reset per net, nets are dropped only for having fewer than two pins, running extrema start on the neutral side and emptiness is tested non-strictly, and the builders read placed geometry.",
             "Trusted: clang 14 front end; rules/orientation_spec.json (DEF semantics as documented in coloquinte.hpp). Not decided: equality over whole update histories; int overflow (C07).",
             "DESIGN.md 2/C09"),
     "C04": ("exhaustive table extraction of the polarity/orientation functions, edge-dominance analysis of admission predicates and commits, witness-variable provenance",
             "The orientation tables are decided exhaustively (50 cells) against the specification; every admission predicate of legalization and detailed placement "
-            "admits a (cell,row) pair only under an orientation-compatibility test of that pair; commits use only admitted candidates; orientation stores come from the row the cell is placed on; cells without polarity keep their orientation; the circuit's polarities reach the models unchanged; the checker rejects INVALID.",
+            "admits a (cell,row) pair only under an orientation-compatibility test of that pair; commits use only admitted candidates; orientation stores come from the row the cell is placed on; cells without polarity keep their orientation; the circuit's polarities reach the models unchanged; orientations are written back for every placed cell, moved or not; the checker rejects INVALID.",
             "Trusted: clang 14 front end; rules/orientation_spec.json; the list of admission predicates in cqverif/rules/c04.py. Not decided: which admissible row is chosen.",
             "DESIGN.md 2/C04"),
     "C20": ("name-correspondence analysis of the clang-resolved binding table (module.cpp parsed against a pybind11 stub and the real header), Python ast receiver typing, writer/reader key and expression-shape agreement",
             "The binding clause is decided whole: each of the ~140 Python-visible names is bound to the resolved C++ entity of the same name and class. "
-            "The round-trip clause is decided by its structural conditions: the writer emits every record, raw geometry that the reader inverts exactly, and orientations by name.",
+            "The round-trip clause is decided by its structural conditions: every file is written on every path, the writer emits every record, raw geometry that the reader inverts exactly, and orientations by name.",
             "Trusted: clang 14 front end; the pybind11 stub's fidelity to the call shapes module.cpp uses; Python's ast module. Not decided: stream formatting of values outside the property's domain.",
             "DESIGN.md 2/C20"),
     "C14": ("index-domain qualifier typing of the 1-D transportation preprocessing and its callers, guard dominance of the zero filter, accumulator-width rule",
             "The memory-safety clause of the rounding is decided for every instance: each subscript of the sorter's conversions uses an index of the vector's own domain "
-            "(original vs sorted sources/sinks) and the returned assignment has one original sink per original source; zero supplies/demands never reach the solver; totals are folded in 64 bits.",
+            "(original vs sorted sources/sinks) and the returned assignment has one original sink per original source; zero supplies/demands never reach the solver; totals are folded in 64 bits; no sorted view of the problem survives a change of the demands.",
             "Trusted: clang 14 front end; the domain seeds in rules/c14.json. Not decided: optimality/validity of the plan; numeric scan bounds inside the solver.",
             "DESIGN.md 2/C14"),
     "C07": ("producer/consumer bit-width contradiction rules, implicit 64->32 narrowing and fold-accumulator width rules, triaged inventory of 32-bit products (rename-proof shape keys), may-be-minus-one taint to subscripts, interval proof of loop steps; positive controls",
             "Structural no-overflow / no-crash clauses decided for the whole library: no int product is widened after the fact, no 64-bit cost, area or demand is implicitly narrowed, folds accumulate at element width, every 32-bit product of two variables carries a bound argument, "
-            "last-element indices cannot reach a subscript for an empty container, computed loop steps are non-zero, no assertion excludes a sentinel both sides may hold, parameter fields are forwarded to their namesakes, and the global placer's vectors are assigned before a step reads them.",
-            "Trusted: clang 14 front end; the triage tables in rules/c07.json. Declined: general out-of-bounds freedom, assertion unreachability, division by zero, termination of numeric iterations.",
+            "last-element indices cannot reach a subscript for an empty container, computed loop steps are non-zero, no assertion excludes a sentinel both sides may hold, no cell dimension (possibly zero) reaches an integer divisor untested, memoised members are re-derived by every writer of their inputs, window sizes and overlaps are paired within one family, parameter fields are forwarded to their namesakes, and the global placer's vectors are assigned before a step reads them.",
+            "Trusted: clang 14 front end; the triage tables in rules/c07.json. Declined: general out-of-bounds freedom, assertion unreachability, division by zero other than by a cell dimension, termination of numeric iterations.",
             "DESIGN.md 2/C07"),
     "C15": ("edge-dominance analysis of the obstacle filter, qualifier typing (geometry frame, axis, min/max argument roles), soundness check of obstacle skips, slicing-direction agreement, row provenance",
             "Decides which cells count as obstacles (fixed AND obstruction, placed footprint, extras kept), that every row is reduced by every obstacle and only full-height segments with the row's orientation are emitted, "
-            "that geometry helpers never mix frames or axes, that the per-cell vectors it reads are length-checked by their setters, and that every algorithm builder consumes the obstruction-free rows.",
+            "that geometry helpers never mix frames or axes, that the obstacle list is never pruned by the bounds of one particular row and obstacles are enlarged to the row's extent only when they really overlap it, that the per-cell vectors it reads are length-checked by their setters, and that every algorithm builder consumes the obstruction-free rows.",
             "Trusted: clang 14 front end; name-based axis seeds (min/max, X/Y, width/height). Declined: the set equality itself (semantics of boost::polygon's set difference).",
             "DESIGN.md 2/C15"),
     "C18": ("who-may-write + edge-dominance guard analysis; path counting in the per-cell loop; inequality proving from dominating guards (order prover) for the non-narrowing clause; container-use classification; derived-state analysis",
             "Frame and non-narrowing clauses: expansion functions write nothing but cellWidth_ and only under the movable test on the same index; the stored width is proved >= the old width (or the factor >= 1) from the dominating guards; "
-            "computeCellExpansion is pure, gives each cell one factor, 1 for fixed cells and a running maximum from 1 over a region list that is never pruned; no stale cache on the expansion path.",
+            "computeCellExpansion is pure, gives each cell one factor, 1 for fixed cells and a running maximum from 1 over a region list that is never pruned and whose scan is bounded only by a sound binary search; the width cap comes from the widest row; no stale cache on the expansion path.",
             "Trusted: clang 14 front end; the positive-orthant domain of cqverif/order.py (sizes, areas, densities and factors are non-negative); the caller's factors are >= 1 (the property's domain). Declined: utilisation cap and rounding-carry arithmetic.",
             "DESIGN.md 2/C18"),
     "C01": ("must-pass-through / dominance analysis of the legalization skeleton, witness-variable provenance of commits, who-may-write, row provenance, derived-state (cache) invalidation analysis",
             "Decides the 'fails loudly / nothing partial / only free, admitted space is consumed' skeleton for every circuit: completeness check last, export after a successful run, commits only of admitted (cell,row) candidates with a space test, "
-            "rows taken from the obstruction-free computation, Tetris space bookkeeping under a two-sided overlap test, index bookkeeping in step, no stale cached free space, every strip of a multi-row cell marked, and the width/height exchange of turned cells consistent with the frame (placed vs raw) of the sizes the legalizer was given.",
+            "rows taken from the obstruction-free computation, Tetris space bookkeeping under a two-sided overlap test, index bookkeeping in step, no stale cached free space, every strip of a multi-row cell marked, and the width/height exchange of turned cells consistent with the frame (placed vs raw) of the sizes the legalizer was given, row sweeps that reach every row, and interval intersections emitted only when proved non-empty.",
             "Trusted: clang 14 front end. Declined: geometric legality of the Abacus/Tetris arithmetic; 'never fails when trivial'.",
             "DESIGN.md 2/C01"),
     "C02": ("who-may-write, edge-dominance of mutations by feasibility predicates, witness provenance of moves, geometry-frame typing of the model builders, obstacle-list filter analysis",
@@ -81,22 +81,22 @@ CHECKS = {
             "DESIGN.md 2/C02"),
     "C05": ("witness provenance + direction of acceptance comparisons, probe-restore pairing (post-dominance), model/placement synchronisation pairing, loop-coverage of the shift model, derived-state freshness (call-graph reachability)",
             "Decides that moves are committed only when their evaluated value improved on the value at entry, that probes are undone, that every committed change re-synchronises the incremental models, that reordering evaluates and keeps candidates on up-to-date models, "
-            "that the shift model covers every pin, that committed positions are computed in the probed state, that no pass reads coordinates back from the Circuit and the incremental models are built in the placed frame. Reports the stale-pin-offset defect of the pinned tree as a known finding.",
+            "that the shift model covers every pin, that probes evaluate exactly the positions the commit will use and committed positions are computed in the probed state, that no pass reads coordinates back from the Circuit and the incremental models are built in the placed frame. Reports the stale-pin-offset defect of the pinned tree as a known finding.",
             "Trusted: clang 14 front end. Declined: that the shift LP optimum never worsens the value; numeric equality with Circuit::hpwl() (C09).",
             "DESIGN.md 2/C05"),
     "C06": ("polynomial normal-form comparison of the blend / export / spreading formulas, guard analysis of shortcuts, argument provenance, axis typing, X/Y twin agreement, cell-conservation analysis of the bin hierarchy (effect summaries of conditions, clear-to-refill reachability)",
             "Decides the 'exports the documented blend, per axis, centre to corner' clause for all weights accepted by the parameter check, the convex-combination form of the spreading inside a bin, "
-            "same-axis clamping of fixed pins, regularisation before solving, conservation of cells when the bin hierarchy is rebuilt or bins are emptied, and axis consistency of the global placer (326 functions) including X/Y twin agreement.",
+            "same-axis clamping of fixed pins, regularisation before solving, conservation of cells when the bin hierarchy is rebuilt or bins are emptied, no bin returning its cells' raw targets unspread, and axis consistency of the global placer (326 functions) including X/Y twin agreement.",
             "Trusted: clang 14 front end; name-based axis seeds. Declined: containment and finiteness of solver output; absence of errors (floating-point behaviour).",
             "DESIGN.md 2/C06"),
     "C12": ("edge-dominance of state mutations by the update flag, reachability analysis of save/restore of popped bounds, sign-region consistency of the tie selector, inequality proving of bound positions (order prover), derived-state analysis",
             "Decided for every call: a cost prediction (getCost) leaves bounds, constrainingPos_ and cumWidth_ unchanged; the final-position choice is consistent with the loop's descent test (ties stay at the last bound passed); "
-            "every new bound is pushed at a position >= begin_; a cached placement is reset by every updating path; clear() restores the constructor's values.",
+            "every new bound is pushed at a position >= begin_ and none is left right of the position committed for the cell; a cached placement is reset by every updating path; clear() restores the constructor's values.",
             "Trusted: clang 14 front end; asserts of the function are used as stated invariants. Declined: order, overlap, containment, optimality and cost exactness beyond these necessary conditions (numerical).",
             "DESIGN.md 2/C12"),
     "C16": ("who-may-write, post-dominance pairing of the two allocation representations, reachability analysis of empty-then-refill, loop coverage, X/Y twin agreement, index-level discipline and index-origin taint",
             "Decided structurally: the cell->bin maps and the bin->cells lists are always updated together and the redistribution paths (reoptimize, rebisect, refine, coarsen) can neither drop nor duplicate a cell; "
-            "indices handed to the base grid are translated through the hierarchy limits; no bin index is derived from a coordinate division.",
+            "indices handed to the base grid are translated through the hierarchy limits; no bin index is derived from a coordinate division; capacities are accumulated region by region without carried scan state and row bounds are never offset in floating point.",
             "Trusted: clang 14 front end. Declined: capacity exactness/aggregation beyond the index-origin rule, coordinates inside the bin beyond the level discipline.",
             "DESIGN.md 2/C16"),
 }
